@@ -95,6 +95,8 @@ def gen_case(seed, tier):
             setup.append({'op': 'set', 'k': 1000 + j, 'v': j, 'tag': 't1', 'expire': 1, 'retry': True})
         setup.append({'op': 'advance', 'dt': 5})
     op = gen_target_op(rng, target, keys, big_n, bulk)
+    if op.get('op') == 'check':
+        setup.append({'op': 'damage'})      # an unknown file in every database directory: a complete report is never empty
     hold = rng.choice(('short', 'long', 'long'))
     dur = timeout * rng.choice((0.1, 0.5)) if hold == 'short' else timeout * rng.choice((1.5, 3.0, 7.5))
     cfg = {'target': target, 'settings': settings, 'timeout': timeout, 'shards': rng.choice((1, 2, 3)), 'maxlen': None,
@@ -198,6 +200,8 @@ def gen_target_op(rng, target, keys, big_n, bulk):
         return op
     names = ['set', 'set', 'add', 'incr', 'decr', 'touch', 'pop', 'delete', 'get', 'get', 'contains', 'len', 'iter',
              'clear', 'evict', 'expire', 'cull', 'setitem', 'getitem', 'delitem', 'read']
+    if target in ('cache', 'fanout'):
+        names += ['check']
     if target == 'cache':
         names += ['push', 'pull', 'peek', 'peekitem', 'volume']
     name = rng.choice(names)
@@ -216,14 +220,14 @@ def gen_target_op(rng, target, keys, big_n, bulk):
         op['prefix'] = rng.choice(('q', None))
     if name == 'peekitem':
         pass
-    if name in TXN_OPS + ('get',) and name not in ('peek', 'peekitem') and rng.random() < 0.4:
+    if name in TXN_OPS + ('get', 'check') and name not in ('peek', 'peekitem') and rng.random() < 0.4:
         op['retry'] = True
     if name in ('peek', 'peekitem') and rng.random() < 0.4:
         op['retry'] = True
     if target == 'django':
         # DjangoCache defaults to retry=True for writes; make the choice explicit
-        if name in ('set', 'add', 'touch', 'pop', 'delete', 'incr', 'decr') and 'retry' not in op:
-            op['retry'] = False
+        if name in ('set', 'add', 'touch', 'pop', 'delete', 'incr', 'decr') and 'retry' not in op and rng.random() < 0.5:
+            op['retry'] = False     # otherwise the backend's own default applies: these methods wait (retry=True)
         if name in ('incr', 'decr'):
             op['default'] = 0
     return op
@@ -376,6 +380,7 @@ def _run(case):
            'locked': bool(out['fired'].get('lock')),
            'lock_at': state.get('lock_at')}
     for problems, empties, info in out.get('audits', []):
+        problems = [p for p in problems if not (p[0] == 'file-unknown' and p[1] == 'stray.bin')]      # the check victim's own setup
         if problems:
             violations.append({'rule': 'C14/audit', 'sig': ','.join(sorted({p[0] for p in problems})), 'detail': str(problems[:3])})
     pr = dict(out['probes'])
@@ -392,6 +397,11 @@ def run_with_snap(case, inspect, prepare, extra, client_snap, state):
     def patched(c, op, ctx):
         if op.get('op') == 'snap':
             client_snap(c)
+            return 'None'
+        if op.get('op') == 'damage':
+            for d in state['dirs']:
+                with open(os.path.join(d, 'stray.bin'), 'wb') as fh:
+                    fh.write(b'junk')
             return 'None'
         return orig(c, op, ctx)
 
@@ -478,11 +488,19 @@ def judge(case, base, run, violations, probes):
     if lock_at[0] == 'sql' and str(lock_at[1]).startswith('BEGIN') and op.get('v') is not None:
         probes['lock_before_begin_after_file'] = 1
     is_timeout = res is not None and res[0] == 'exc' and res[1] == 'Timeout'
-    if kind in ('fanout', 'django', 'deque', 'index', 'recipe') and is_timeout:
+    if kind in ('fanout', 'django', 'deque', 'index', 'recipe') and is_timeout and name != 'check':
         violations.append({'rule': 'C14/timeout-escaped', 'sig': '%s.%s' % (kind, name), 'detail': desc})
         return
     if res is not None and res[0] == 'exc' and res[1] not in ('Timeout', 'KeyError', 'IndexError', 'ValueError', 'TypeError'):
         violations.append({'rule': 'C14/unexpected-exception', 'sig': '%s.%s:%s' % (kind, name, res[1]), 'detail': desc})
+        return
+    if name == 'check' and not same_as_baseline:
+        # check() either reports everything (it waited) or raises Timeout - Cache and FanoutCache alike, the one FanoutCache
+        # method documented to raise; a shorter list returned in silence would read as "consistent"
+        if not is_timeout or retry or not long_hold:
+            violations.append({'rule': 'C14/check-incomplete-or-failed', 'sig': '%s.check' % kind, 'detail': desc})
+        else:
+            probes['timeout_raised'] = 1
         return
     if same_as_baseline:
         if retry and long_hold:
